@@ -56,6 +56,73 @@ type c20Case struct {
 	// the first and at the last position (unweighted entries ignore the weights)
 	Samp int `json:"samp"`
 	Sp   int `json:"sp,omitempty"` // 1: the float data contain NaN, +Inf, -Inf, -0, the largest and the smallest positive double; 2: the same without NaN
+	// extreme-magnitude flavour (0: off): every float array handed to the library is multiplied by the
+	// factor c20MagFactors[(Mag-1)%6] (1e101, 1e-103, 1e150, 1e-150, 2^500, 2^-500: all values stay finite
+	// and non-zero values stay normal); (Mag-1)/6 = 0: data AND weights, 1: weights only, 2: data only
+	Mag int `json:"mag,omitempty"`
+}
+
+// The extreme-magnitude flavour (seeded change C20-8: LinearLeastSquares divided weights beyond 1e+-100 by
+// their maximum IN THE CALLER'S SLICE).  A routine that rescales / normalises / clamps its input in place
+// only when the magnitudes are extreme is seen by the whole-backing-array comparison only if such
+// magnitudes occur: every table entry that takes a float array is run with all its float arrays scaled
+// (houseF is the single door through which float arrays reach the library).
+// The decimal factors straddle the 1e+-100 marks with the weights 1..51 of c20Weights (51e-103 < 1e-100);
+// the powers of two scale exactly.
+var c20MagFactors = []float64{1e101, 1e-103, 1e150, 1e-150, math.Ldexp(1, 500), math.Ldexp(1, -500)}
+var c20Mag float64    // 0: off
+var c20MagTarget int  // 0 data and weights, 1 weights only, 2 data only
+var c20InWeights bool // houseF is called for a weights array
+// set by houseF / c20Weights: the generator asks which entries take float arrays / weights at all
+var c20SawFloat, c20SawWeights bool
+
+func c20SetMag(name string, m int) {
+	c20Mag, c20MagTarget = 0, 0
+	if m > 0 {
+		c20Mag, c20MagTarget = c20MagFactors[(m-1)%6], (m-1)/6
+		if c20MagReduced(name) {
+			c20Mag = math.Ldexp(1, 200-400*((m-1)%2))
+		}
+	}
+}
+
+// scales a freshly housed window in place (extreme-magnitude flavour)
+func c20MagApply(w []float64, isWeights bool) {
+	if c20Mag != 0 && (isWeights && c20MagTarget != 2 || !isWeights && c20MagTarget != 1) {
+		for i := range w {
+			w[i] *= c20Mag
+		}
+	}
+}
+
+// the factor the weights carry (for the weights written after housing: exact zeros stay zeros)
+func c20WUnit() float64 {
+	if c20Mag != 0 && c20MagTarget != 2 {
+		return c20Mag
+	}
+	return 1
+}
+
+// the factor the data carry (scalars that live on the data's axis - a KDE's fixed bandwidth, its support,
+// the evaluation point - are scaled along, otherwise the input is not a meaningful one: a support of
+// width 10 under a bandwidth of 1e150 makes the reflection series 1e149 terms long)
+func c20DUnit() float64 {
+	if c20Mag != 0 && c20MagTarget != 1 {
+		return c20Mag
+	}
+	return 1
+}
+
+// Entries run with REDUCED extreme magnitudes (factors 2^+200 / 2^-200 instead of the six above; documented
+// in meta/C20.json, assumptions).
+// OPEN OBSERVATION on the unchanged tree: stats.TwoSampleWelchTTest PANICS ("betainc: a or b too big; failed
+// to converge") on finite, ordinary-shaped samples once the data are beyond about 1e+-77, e.g.
+// {1e78,2e78,4e78} vs {2e78,3e78,3e78,7e78}: the Welch-Satterthwaite degrees of freedom square the variances,
+// (v1/n1+v2/n2)^2 overflows to +Inf (underflows to 0 for tiny data), dof = Inf/Inf = NaN reaches BetaInc.
+// The panic is deterministic and the arguments are untouched, so no clause of C20 is broken, but a call
+// that panics has compared nothing (the comparator rejects it): the entry gets factors it survives.
+func c20MagReduced(name string) bool {
+	return name == "stats.TwoSampleWelchTTest"
 }
 
 // which special-values flavour an entry is run with (in addition to its ordinary cases).
@@ -159,6 +226,10 @@ func houseF(rng *rand.Rand, xs []float64) []float64 {
 	}
 	w := back[c20Guard : c20Guard+n : c20Guard+n+spare]
 	copy(w, xs)
+	if n > 0 {
+		c20SawFloat = true
+	}
+	c20MagApply(w, c20InWeights)
 	if n+spare > 0 {
 		c20BackF[&back[c20Guard]] = back
 	}
@@ -318,6 +389,9 @@ func c20Weights(rng *rand.Rand, n int) []float64 {
 	for i := range ws {
 		ws[i] = float64(1+rng.Intn(50)) + float64(i)/1024 // distinct, so a pair-sort moves them visibly
 	}
+	c20SawWeights = true
+	c20InWeights = true
+	defer func() { c20InWeights = false }()
 	return houseF(rng, ws)
 }
 
@@ -419,13 +493,13 @@ func c20Sample(rng *rand.Rand, n int, weighted bool) stats.Sample {
 				}
 			}
 			p := rng.Intn(n - 1)
-			ws[p], ws[p+1] = 0, 1.5+float64(p)/64
+			ws[p], ws[p+1] = 0, (1.5+float64(p)/64)*c20WUnit()
 		case 2:
 			ws[0], ws[n-1] = 0, 0
 			if n >= 3 {
-				ws[1] = 2.25
+				ws[1] = 2.25 * c20WUnit()
 			} else {
-				ws[1] = 2.25 // n == 2: only the first is zero
+				ws[1] = 2.25 * c20WUnit() // n == 2: only the first is zero
 			}
 		}
 	}
@@ -593,7 +667,7 @@ func init() {
 		xs = houseF(rng, xs)
 		ys := c20Data(rng, n)
 		var ws []float64
-		if rng.Intn(2) == 0 {
+		if rng.Intn(2) == 0 || c20Mag != 0 && c20MagTarget != 2 { // extreme weights: always weighted
 			ws = c20Weights(rng, n)
 		}
 		return one(&c20Inst{[]func() []uint64{snapF(&xs), snapF(&ys), snapF(&ws)}, func() []uint64 {
@@ -1045,8 +1119,9 @@ func init() {
 			case 2:
 				bmin, bmax = -1, float64(n)+3
 			}
-			x := float64(rng.Intn(4*n)) / 8
-			bw0 := 0.75
+			x := float64(rng.Intn(4*n)) / 8 * c20DUnit()
+			bmin, bmax = bmin*c20DUnit(), bmax*c20DUnit()
+			bw0 := 0.75 * c20DUnit()
 			if lazy {
 				bw0 = 0
 			}
@@ -1457,6 +1532,10 @@ func c20Run(raw []byte) (*Line, error) {
 		return nil, fmt.Errorf("bad sp")
 	}
 	c20Special = c.Sp
+	if c.Mag < 0 || c.Mag > 18 || c.Mag != 0 && c.Sp != 0 {
+		return nil, fmt.Errorf("bad mag")
+	}
+	c20SetMag(c.Call, c.Mag)
 	c20Floats, c20Scramble = nil, nil
 	c20BackF, c20BackI = map[*float64][]float64{}, map[*int][]int{}
 	inst := mk()()
@@ -1518,11 +1597,13 @@ func c20Run(raw []byte) (*Line, error) {
 	// 2. history: unrelated calls, then the same call on freshly built equal arguments
 	hr := rand.New(rand.NewSource(c.Seed ^ 0x5eed))
 	c20Special = 0 // the unrelated calls run on ordinary data
+	c20SetMag("", 0)
 	for k := 0; k < 4; k++ {
 		o := &c20Table[hr.Intn(len(c20Table))]
 		c20Call1(o.build(rand.New(rand.NewSource(hr.Int63())), 3+hr.Intn(20))())
 	}
 	c20Special = c.Sp
+	c20SetMag(c.Call, c.Mag)
 	det := det3 && eqU(r1, c20Call1(mk()()))
 	// ... also when the SAME buffers hold different data at a later call (a cache keyed by slice
 	// identity would go stale): overwrite the argument arrays in place with other values v2 and
@@ -1640,6 +1721,39 @@ func c20Run(raw []byte) (*Line, error) {
 	return l, nil
 }
 
+func c20ProbeFloats() (takesF, takesW map[string]bool, err error) {
+	takesF, takesW = map[string]bool{}, map[string]bool{}
+	if os.Getenv("C20_LIST_FLOATS") != "" { // the child: probe and print
+		for _, c := range c20Table {
+			c20SawFloat, c20SawWeights = false, false
+			c20Special, c20Samp, c20Shape, c20CapMode = 0, 0, 0, 0
+			c20SetMag("", 0)
+			for _, sz := range []int{7, 8, 9, 10} { // some entries draw "weighted or not" from the PRNG
+				c.build(rand.New(rand.NewSource(int64(sz))), sz)()
+			}
+			fmt.Printf("%s\t%v\t%v\n", c.name, c20SawFloat, c20SawWeights)
+		}
+		return nil, nil, nil
+	}
+	cmd := exec.Command(os.Args[0], "gen", "C20", "quick", "1")
+	cmd.Env = append(os.Environ(), "C20_LIST_FLOATS=1")
+	out, err := cmd.Output()
+	if err != nil {
+		return nil, nil, err
+	}
+	for _, l := range strings.Split(strings.TrimSpace(string(out)), "\n") {
+		f := strings.Split(l, "\t")
+		if len(f) != 3 {
+			return nil, nil, fmt.Errorf("unexpected probe line %q", l)
+		}
+		takesF[f[0]], takesW[f[0]] = f[1] == "true", f[2] == "true"
+	}
+	if len(takesF) != len(c20Table) {
+		return nil, nil, fmt.Errorf("probe listed %d entries, table has %d", len(takesF), len(c20Table))
+	}
+	return takesF, takesW, nil
+}
+
 func c20Gen(tier string, rng *rand.Rand, emit0 func(interface{})) {
 	// the number of cases emitted is printed at the very end: a run that dies half-way is
 	// recognised by the missing sentinel (bin/plugins/C20.py checks it for the -race twin)
@@ -1658,6 +1772,10 @@ func c20Gen(tier string, rng *rand.Rand, emit0 func(interface{})) {
 		}
 		return
 	}
+	if os.Getenv("C20_LIST_FLOATS") != "" {
+		c20ProbeFloats()
+		return
+	}
 	if os.Getenv("C20_CONC_FIRST") == "1" {
 		emit(c20Case{Call: "@warmup", Size: 3})
 	}
@@ -1669,6 +1787,14 @@ func c20Gen(tier string, rng *rand.Rand, emit0 func(interface{})) {
 	if tier == "thorough" {
 		reps = 60
 	}
+	// which entries take float arrays / weights at all: probe builds on ordinary data, made in a CHILD
+	// process (some builds construct their receivers through library calls; this process must not have
+	// made any before the warm-up of the -race twin)
+	takesF, takesW, err := c20ProbeFloats()
+	if err != nil {
+		panic("C20: probe of the float-taking entries failed: " + err.Error())
+	}
+	magFlip := rng.Intn(2)
 	for r := 0; r < reps; r++ {
 		for _, c := range c20Table {
 			size := 3 + rng.Intn(30)
@@ -1682,6 +1808,17 @@ func c20Gen(tier string, rng *rand.Rand, emit0 func(interface{})) {
 			if sp := c20SpecialFor(c.name); sp != 0 && r%3 == 1 { // the same entry on data with NaN, +-Inf, -0, extremes
 				emit(c20Case{Call: c.name, Seed: rng.Int63(), Size: size, Cap: r % 3, Sp: sp})
 			}
+			// the same entry with every float array scaled to an extreme magnitude: quick r = 0 (data and
+			// weights) and r = 5 (weights only where the entry has weights), one of them huge, the other
+			// tiny; thorough: every r = 0, 2 mod 3 but the size-2 round, weights only / data only alternating
+			if takesF[c.name] && r%3 != 1 && r != 3 && (tier == "thorough" || r == 0 || r == 5) {
+				tgt := 0
+				if r%3 == 2 && takesW[c.name] {
+					tgt = 2 - (r/3)%2
+				}
+				mag := 1 + 6*tgt + 2*rng.Intn(3) + (r+magFlip)%2
+				emit(c20Case{Call: c.name, Seed: rng.Int63(), Size: size, Cap: (r + 1) % 3, Samp: r % 6, Mag: mag})
+			}
 			if strings.HasPrefix(c.name, "mathx.") { // scalar calls are cheap: many more parameter draws
 				for x := 0; x < 15; x++ {
 					emit(c20Case{Call: c.name, Seed: rng.Int63(), Size: size})
@@ -1694,6 +1831,9 @@ func c20Gen(tier string, rng *rand.Rand, emit0 func(interface{})) {
 		if r < 6 {
 			for _, c := range c20Canaries {
 				cc := c20Case{Call: c.name, Seed: rng.Int63(), Size: 3 + rng.Intn(30), Cap: (r + 2) % 3}
+				if c.name == "canary:impure/extreme" { // flagged ONLY when the extreme-magnitude flavour really scales the arrays
+					cc.Mag = 1 + 6*(r%2) + 2*rng.Intn(3) + (r/2+magFlip)%2
+				}
 				if c.name == "canary:nondet/process" && os.Getenv("C20_NOFRESH") == "1" {
 					continue // only the fresh-process reference can see it, and the -race twin makes none
 				}
